@@ -847,6 +847,10 @@ class Engine:
         v = self.eval(node.operand, env)
         if isinstance(node.op, ast.Not):
             return self.Not(self.truth(v))
+        if isinstance(v, PArr) and isinstance(node.op, ast.Invert) and z3.is_bool(v.e):
+            return v.like(z3.Not(v.e))                # ~mask
+        if isinstance(v, PArr) and isinstance(node.op, ast.USub):
+            return v.like(-v.e)
         if isinstance(node.op, ast.USub):
             return self.numval(-self.num(v))
         if isinstance(node.op, ast.UAdd):
